@@ -22,7 +22,9 @@ is at the level of tokens; identifiers, numbers and strings are arbitrary `Strin
 * **Classification** (`_resolve_part_ID_type`): `classify_last`; `cls reach d e` is the classification the
   compiler arrives at for an expression followed by tokens with `dotAhead = d`.
 * **Multiplicities**: `mult_normalise`.
-* **Includes**: `dedup_dedup_append`, `dedup_repeat` (`include_flatten`).
+* **Includes / de-duplication** with Python's `==` (`dedupBy`, `metaEqv`: the order of meta entries is irrelevant,
+  numbers are floats): `include_flatten`, `include_repeat`, `dedup_spec`, `metaEqv_swap`, `metaEqv_refl`,
+  `dedup_merges_meta_order`, `dedup_merges_number_spelling`.
 * **Text**: `lex_render_partial`, `compile_render_print`; from conditions on the names and literals of the
   specification alone (`NamesLexable`, decided by `namesLexableB`): `prSpec_lexable`, `compile_render_print_names`.
 * **Fuel**: `fuel_mono` (TTC parsers, `parseArgs`, `parseCias`), `fuel_mono_partial` (all others, with fuel at
@@ -287,7 +289,9 @@ theorem parse_print_decls (s : CSpec) (hw : WFSpec s) : parseMal (prSpec s) = so
 supplies; the whole token list, nothing left over) to its declarations, and assembling them (`visitMal`: defines, categories, assets, associations,
 de-duplication) gives the specification.  `WFSpec`: distinct define / meta keys, strings without quotes, the five
 step types, operators and risk flags the compiler can produce, non-empty requires / reaches lists classified as
-the compiler classifies, no duplicate category / asset / association, assets listed category by category. -/
+the compiler classifies, no two categories / assets / associations that are equal for Python's `==` (`catEqv`,
+`assetEqv`, `assocEqv`: up to the order of meta entries and the spelling of numbers — the compiler merges those),
+assets listed category by category. -/
 theorem parse_print (s : CSpec) (hw : WFSpec s) (inc : String → Option CSpec) :
     (parseMal (prSpec s)).bind (assemble inc) = some s := by
   rw [parseMal_prSpec s hw]
@@ -305,17 +309,70 @@ theorem compileFile_unfold (files : String → Option String) (f : Nat) (name : 
       (files name).bind fun src => (parseSource src).bind (assemble (compileFile files f)) :=
   compileFile_succ files f name
 
-/-- include flattening: de-duplicating what an included file contributed first changes nothing … -/
-theorem include_flatten {α : Type} [DecidableEq α] (a b : List α) : dedup (dedup a ++ b) = dedup (a ++ b) :=
-  dedup_dedup_append a b
+/-- include flattening: de-duplicating what an included file contributed first (its own `visitMal` does) changes
+nothing …  `r` is the equality used by `item not in unique` (`catEqv`, `assetEqv`, `assocEqv`: Python's `==`, which
+ignores the order of meta entries and compares numbers as floats); no property of `r` is needed -/
+theorem include_flatten {α : Type} (r : α → α → Bool) (a b : List α) :
+    dedupBy r (dedupBy r a ++ b) = dedupBy r (a ++ b) :=
+  dedupBy_dedupBy_append r a b
 
-/-- … and repeating an include changes nothing -/
-theorem include_repeat {α : Type} [DecidableEq α] (a x b : List α) : dedup (a ++ x ++ b ++ x) = dedup (a ++ x ++ b) :=
-  dedup_repeat a x b
+/-- … and repeating an include changes nothing (the repeated declarations equal themselves: true for every value
+Python can build, i.e. when meta keys are distinct, `metaEqv_refl`) -/
+theorem include_repeat {α : Type} (r : α → α → Bool) (a x b : List α) (hrefl : ∀ y ∈ x, r y y = true) :
+    dedupBy r (a ++ x ++ b ++ x) = dedupBy r (a ++ x ++ b) :=
+  dedupBy_repeat r a x b hrefl
 
-theorem dedup_spec {α : Type} [DecidableEq α] (l : List α) :
-    (dedup l).Nodup ∧ (∀ y, y ∈ dedup l ↔ y ∈ l) ∧ (l.Nodup → dedup l = l) :=
-  ⟨nodup_dedup l, mem_dedup l, dedup_of_nodup l⟩
+/-- what the de-duplication does: no element of the result equals an earlier one, nothing is invented, every
+element (that equals itself) has a representative, and a list without such duplicates is unchanged -/
+theorem dedup_spec {α : Type} (r : α → α → Bool) (l : List α) :
+    (dedupBy r l).Pairwise (fun a b => r b a = false) ∧ (∀ y, y ∈ dedupBy r l → y ∈ l) ∧
+    ((∀ y ∈ l, r y y = true) → ∀ y ∈ l, (dedupBy r l).any (r y) = true) ∧
+    (l.Pairwise (fun a b => r b a = false) → dedupBy r l = l) :=
+  ⟨pairwise_dedupBy r l, mem_dedupBy r l, fun h => rep_dedupByAux r [] l h, dedupBy_of_pairwise r l⟩
+
+/-- with structural equality this is the plain first-occurrence de-duplication -/
+theorem dedup_structural {α : Type} [DecidableEq α] (l : List α) :
+    dedup l = dedupBy (fun a b => decide (b = a)) l ∧ (dedup l).Nodup ∧ (∀ y, y ∈ dedup l ↔ y ∈ l) :=
+  ⟨dedup_eq_dedupBy l, nodup_dedup l, mem_dedup l⟩
+
+/-- Python's `==` on two `meta` dictionaries does not see the order of the entries -/
+theorem metaEqv_swap (k1 v1 k2 v2 : String) (h : k1 ≠ k2) :
+    metaEqv [(k1, v1), (k2, v2)] [(k2, v2), (k1, v1)] = true := by
+  have h' : k2 ≠ k1 := fun e => h e.symm
+  simp [metaEqv, List.lookup, beq_eq_false_iff_ne.mpr h, beq_eq_false_iff_ne.mpr h']
+
+/-- a dictionary equals itself (keys are distinct in every dictionary) -/
+theorem metaEqv_refl (m : Meta) (h : (m.map (·.1)).Nodup) : metaEqv m m = true := by
+  simp only [metaEqv, beq_self_eq_true, Bool.true_and, List.all_eq_true, beq_iff_eq]
+  intro e he
+  induction m with
+  | nil => cases he
+  | cons x xs ih =>
+    simp only [List.map_cons, List.nodup_cons] at h
+    rcases List.mem_cons.mp he with rfl | he
+    · simp [List.lookup]
+    · have hne : ¬ e.1 = x.1 := by
+        intro heq
+        exact h.1 (heq ▸ List.mem_map_of_mem he)
+      simp only [List.lookup, beq_eq_false_iff_ne.mpr hne]
+      exact ih h.2 he
+
+/-- … which an association list with a repeated key (not a dictionary) would not -/
+example : metaEqv [("a", "1"), ("a", "2")] [("a", "1"), ("a", "2")] = false := by decide
+
+/-- **the repaired divergence (order of meta entries)**: two declarations of an asset that differ only in the order
+of their meta entries are ONE asset for the compiler (the first is kept); the structural `dedup` kept both -/
+theorem dedup_merges_meta_order :
+    let a1 : CAsset := { name := "Ab", category := "Sys", isAbstract := false, superAsset := none,
+                         metaD := [("user", "x"), ("developer", "y")], steps := [{ name := "s", type := "or" }] }
+    let a2 : CAsset := { a1 with metaD := [("developer", "y"), ("user", "x")] }
+    dedupBy assetEqv [a1, a2] = [a1] ∧ dedup [a1, a2] = [a1, a2] := by decide
+
+/-- **numbers are floats**: `Exponential(1.0)` and `Exponential(1.00)` (and `1`, `01.0`) are the same TTC -/
+theorem dedup_merges_number_spelling :
+    let st (n : String) : CStep := { name := "s", type := "or", ttc := some (.func "Exponential" [n]) }
+    let a (n : String) : CAsset := { name := "Ab", category := "Sys", isAbstract := false, superAsset := none, steps := [st n] }
+    dedupBy assetEqv [a "1.0", a "1.00", a "01.0", a "1", a "1.5"] = [a "1.0", a "1.5"] := by decide
 
 /-! ### 6. text -/
 
@@ -428,10 +485,10 @@ theorem demoSpec_wf : WFSpec demoSpec where
     intro c h
     simp only [demoSpec, List.mem_cons, List.not_mem_nil, or_false] at h
     subst h; exact wfMeta_one _ _ (by unfold noQuote; decide)
-  assetNodup := by simp [demoSpec]
+  assetNodup := by decide
   assetWF := by intro a h; simp only [demoSpec, List.mem_cons, List.not_mem_nil, or_false] at h; subst h; exact demoAsset_wf
   grouped := by decide
-  assocNodup := by simp [demoSpec]
+  assocNodup := by decide
   assocWF := by intro a h; simp only [demoSpec, List.mem_cons, List.not_mem_nil, or_false] at h; subst h; exact ⟨wfMeta_nil⟩
 
 example : (parseMal (prSpec demoSpec)).bind (assemble (fun _ => none)) = some demoSpec :=
